@@ -1,12 +1,14 @@
 #!/bin/bash
-# round4.sh <PROP> : confirm the three changes of the round-4 sub-agent for <PROP> (ids m7..m9), run the property's quick check
-# against each kept one (scripts/seedtest.sh), and remove the agent's scratch worktree.
-P=$1
+# round4.sh <PROP> : confirm the three changes of a later-round sub-agent for <PROP>, run the property's quick check against each
+# kept one (scripts/seedtest.sh), and remove the agent's scratch worktree.
+# SUF (default d) names the agent's directories /tmp/seedout/<PROP><SUF>, /tmp/seed/<PROP><SUF>; OFFSET (default 6) maps m<k> to id m<k+OFFSET>.
+P=$1; SUF=${SUF:-d}; OFF=${OFFSET:-6}
 for k in 1 2 3; do
-  [ -f /tmp/seedout/${P}d/m$k/patch.diff ] || continue
-  SRC_DIR=/tmp/seedout/${P}d/m$k WT_DIR=/tmp/seed/${P}d DEST_ID=$P-m$((k+6)) bash /verif/scripts/confirm_seed.sh $P m$k 2>&1 | tail -3
+  [ -f /tmp/seedout/${P}${SUF}/m$k/patch.diff ] || continue
+  SRC_DIR=/tmp/seedout/${P}${SUF}/m$k WT_DIR=/tmp/seed/${P}${SUF} DEST_ID=$P-m$((k+OFF)) bash /verif/scripts/confirm_seed.sh $P m$k 2>&1 | tail -3
 done
-git -C /repo worktree remove --force /tmp/seed/${P}d
-for k in 7 8 9; do
-  [ -d /verif/seeded/$P-m$k ] && bash /verif/scripts/seedtest.sh $P-m$k $P ${EXTRA_CHECKS:-} 2>&1 | grep -E "^SEEDTEST|^---"
+git -C /repo worktree remove --force /tmp/seed/${P}${SUF}
+for k in 1 2 3; do
+  id=$P-m$((k+OFF))
+  [ -d /verif/seeded/$id ] && bash /verif/scripts/seedtest.sh $id $P ${EXTRA_CHECKS:-} 2>&1 | grep -E "^SEEDTEST|^---"
 done
